@@ -17,6 +17,13 @@ ASSUMPTIONS = [
     "pysnark_eqs that qapsplit actually read; the values of the random wires (delta*, rnd*) are read back from the real wire file",
     "the digest is a parameter of the model; the driver instantiates it with the text MD5 is applied to, the harness applies MD5 and "
     "compares with the digests the real run prints",
+    "calls of one named function whose bodies differ only in the multiplicity of an equation line are ordinary traces for the model "
+    "(repeated add_constraint events): they are compared with the model like every other case, none is oracle-only; the oracle counts "
+    "lines as a multiset, as the unchanged qapsplit does (duplicate lines are kept, sorted, written and digested)",
+    "the signature handed to key generation is observed as the fourth component of the value qapsplit() returns to prove(), which "
+    "prove() passes entry by entry to runqapgenf.ensure_ek (with the stub binaries ensure_mkey fails before ensure_ek is reached); "
+    "'different equations -> different signature' across runs is checked per function name over all runs of one exploration and "
+    "relies on MD5 truncated to 40 bits not colliding on the few thousand multisets of a run",
     "file buffering: only 'an explicit flush makes prior writes visible' is modelled; cases whose unflushed tail exceeds Python's 8 KiB "
     "buffer are compared leniently (on-disk content between the model's flush pointer and the full file) and counted as unmodelled",
 ]
@@ -229,6 +236,135 @@ class Gen:
         walk(f["variants"][mode]["body"])
         return kinds[reg]
 
+    # ---- one named function whose calls differ only in how often a check on existing wires is emitted
+    DUP_SCENARIOS = [("same", 3), ("even", 5), ("odd", 3), ("mixed", 2), ("pair-even", 3), ("pair-odd", 1), ("pair-same", 1)]
+    EVEN = [(0, 2), (2, 0), (0, 4), (1, 3), (3, 1), (2, 4), (4, 0)]
+    ODD = [(0, 1), (1, 0), (1, 2), (2, 1), (2, 3), (0, 3), (3, 0), (1, 4)]
+
+    def dup_func(self, mults):
+        """define a function with one variant per entry of `mults` (tuples: how often each of its checks is emitted); all
+        variants share every wire-creating instruction (checks yield no register), so their equation multisets differ exactly
+        by the multiplicities of the check lines; parameter 0 is a bit"""
+        rnd = self.rnd
+        name = rnd.choice(["gate", "chk", "f", "sq", "v"]) + str(len(self.funcs))
+        params = ["L"] * rnd.randrange(1, 4)
+        regs = [Reg("L", 1)] + [Reg("L", 50) for _ in params[1:]]
+        pre = []
+        j = rnd.randrange(len(params))
+        pre.append(["mul", 0, j]); regs.append(Reg("L", 50)); ra = len(regs) - 1
+        pre.append(["mul", 0, j]); regs.append(Reg("L", 50)); rb = len(regs) - 1
+        pre.append(["sub", ra, rb]); regs.append(Reg("L", 100)); rz = len(regs) - 1
+        pre.append(["priv", rnd.choice([0, 1])]); regs.append(Reg("L", 1)); rp = len(regs) - 1
+        self.ring_ops(regs, pre, rnd.randrange(0, 3), True)
+        pool = [["bitcheck", 0], ["bitcheck", rp], ["recheck", 0, j, ra], ["recheck", 0, j, rb], ["aeq", ra, rb], ["aeq", rb, ra],
+                ["azero", rz]]
+        nchk = len(mults[0])
+        checks = rnd.sample(pool, nchk)
+        for c in checks: self.tags.add("dup:check:" + c[0])
+        post = []
+        self.ring_ops(regs, post, rnd.randrange(0, 3), True)
+        ret = self.ret_spec(regs)
+        place = [[rnd.random() < 0.6 for _ in range(4)] for _ in checks]      # copy i of check k before / after the tail
+        variants = {}
+        for m, mu in enumerate(mults):
+            before = []; after = []
+            for k, c in enumerate(checks):
+                for i in range(mu[k]):
+                    (before if place[k][i % 4] else after).append(list(c))
+            if rnd.random() < 0.3: before.reverse()
+            variants[str(m)] = {"body": [list(x) for x in pre] + before + [list(x) for x in post] + after, "ret": ret}
+        self.funcs[name] = {"params": params, "variants": variants}
+        self.order.append(name)
+        return name
+
+    def dup_call(self, regs, out, fname, mode, bit):
+        """call with parameter 0 := register `bit` (a wire holding 0 or 1), the others small wires"""
+        f = self.funcs[fname]
+        idx = [bit]
+        for _ in f["params"][1:]:
+            L = [i for i, r in enumerate(regs) if r.kind == "L" and r.bound is not None and r.bound <= 50]
+            if not L or self.rnd.random() < 0.3:
+                out.append(["priv", self.small()]); regs.append(Reg("L", 50)); L.append(len(regs) - 1)
+            idx.append(self.rnd.choice(L))
+        out.append(["call", fname, mode, idx])
+        def leaves(s):
+            if isinstance(s, int): return [s]
+            if "int" in s: return [None]
+            return [x for y in s.get("list", s.get("tuple")) for x in leaves(y)]
+        for l in leaves(f["variants"][mode]["ret"]):
+            regs.append(Reg("int", None) if l is None else Reg(self.kind_in_body(f, mode, l), None))
+
+    def dup_case(self, cid):
+        """returns a list of cases (two for the cross-run scenarios: same function name and text, other variant called)"""
+        rnd = self.rnd
+        sc = rnd.choice([s for s, w in self.DUP_SCENARIOS for _ in range(w)])
+        self.tags.add("dup:" + sc)
+        nchk = 2 if sc == "mixed" else rnd.choice([1, 1, 2])
+        base = rnd.choice([0, 0, 1, 2])
+        if sc in ("same", "pair-same"):
+            mults = [tuple(rnd.choice([0, 1, 2, 2, 3, 4]) for _ in range(nchk))] * 2
+        else:
+            pairs = self.EVEN if sc in ("even", "mixed", "pair-even") else self.ODD
+            a, b = rnd.choice(pairs)
+            if nchk == 1:
+                mults = [(a,), (b,)]
+            elif sc == "mixed":
+                c, d = rnd.choice(self.EVEN + self.ODD)
+                mults = [(a, c), (b, d)]
+            else:
+                mults = [(a, base), (b, base)]
+            if sc in ("even", "odd", "mixed") and rnd.random() < 0.3:
+                c, d = rnd.choice(pairs)       # a third body, again an even (odd) number of copies away from the first
+                mults.append(tuple([mults[0][0] + abs(d - c)] + list(mults[0][1:])))
+        regs = []; main = []
+        for _ in range(rnd.randrange(1, 3)):
+            main.append(["priv", rnd.choice([0, 1])]); regs.append(Reg("L", 1))
+        bits = list(range(len(regs)))
+        for _ in range(rnd.randrange(0, 3)):
+            v, b = self.value(); main.append([rnd.choice(["priv", "priv", "pub"]), v]); regs.append(Reg("L", b))
+        fname = self.dup_func(mults)
+        nmodes = len(mults)
+        outer = None
+        if not sc.startswith("pair") and rnd.random() < 0.25:
+            # the two bodies are reached through a caller that is itself a sub-circuit (calls in a nested context)
+            self.tags.add("call:nested")
+            oregs = [Reg("L", 1)]; obody = []
+            self.dup_call(oregs, obody, fname, "0", 0)
+            self.ring_ops(oregs, obody, rnd.randrange(0, 2), True)
+            self.dup_call(oregs, obody, fname, str(rnd.randrange(nmodes)) if rnd.random() < 0.5 else "1", 0)
+            oret = self.ret_spec(oregs)
+            outer = "outer" + str(len(self.funcs))
+            self.funcs[outer] = {"params": ["L"], "variants": {"0": {"body": obody, "ret": oret}}}
+            self.order.append(outer)
+        ncalls = rnd.randrange(2, 5)
+        if sc.startswith("pair"):
+            modes = ["0"] * ncalls
+        elif sc == "same":
+            modes = [rnd.choice(["0", "1"]) for _ in range(ncalls)]     # textually equal variants
+        else:
+            modes = [str(rnd.randrange(nmodes)) for _ in range(ncalls)]
+            i, k = rnd.sample(range(ncalls), 2)
+            modes[i] = "0"; modes[k] = "1"
+        for i, mode in enumerate(modes):
+            self.ring_ops(regs, main, rnd.randrange(0, 2), False)
+            if outer is not None and i == 0:
+                self.dup_call(regs, main, outer, "0", rnd.choice(bits))
+            else:
+                self.dup_call(regs, main, fname, mode, rnd.choice(bits))
+            self.tags.add("call:repeated")
+        L = [i for i, r in enumerate(regs) if r.kind == "L"]
+        if rnd.random() < 0.7:
+            main.append(["val", rnd.choice(L)]); self.tags.add("op:val")
+        funcs = {k: {"variants": v["variants"]} for k, v in self.funcs.items()}
+        first = {"id": cid, "flavour": "dup", "funcs": funcs, "main": main, "tags": sorted(self.tags)}
+        if not sc.startswith("pair"):
+            return [first]
+        # second run: same program text except that every call takes the other body of the function
+        main2 = [([x[0], x[1], "1", x[3]] if x[0] == "call" and x[1] == fname else list(x)) for x in main]
+        if sc == "pair-same":
+            main2 = [(["priv", rnd.choice([0, 1])] if x[0] == "priv" and i < len(bits) else x) for i, x in enumerate(main2)]
+        return [first, {"id": cid + "-run2", "flavour": "dup", "funcs": funcs, "main": main2, "tags": sorted(self.tags)}]
+
     def case(self, cid):
         rnd = self.rnd
         fl = self.flavour
@@ -270,7 +406,30 @@ class Gen:
                 "tags": sorted(self.tags)}
 
 
-FLAVOURS = [("flat", 3), ("calls", 6), ("nested", 4), ("coef", 2), ("one-ctx", 2), ("kinds", 2), ("empty", 1), ("variants", 2), ("bigtail", 1)]
+FLAVOURS = [("flat", 3), ("calls", 6), ("nested", 4), ("coef", 2), ("one-ctx", 2), ("kinds", 2), ("empty", 1), ("variants", 2), ("bigtail", 1),
+            ("dup", 5)]
+
+
+def corpus_dup():
+    """one named function, bodies that differ only in how often the booleanity check of the argument is emitted"""
+    def gate(*counts):
+        return {"gate": {"variants": {str(m): {"body": [["bitcheck", 0]] * (n // 2) + [["mul", 0, 0]] + [["bitcheck", 0]] * (n - n // 2), "ret": 1}
+                                      for m, n in enumerate(counts)}}}
+    def main(m0, m1):
+        return [["priv", 1], ["priv", 0], ["call", "gate", m0, [0]], ["call", "gate", m1, [1]], ["add", 2, 3], ["val", 4]]
+    return [
+        {"id": "corpus-dup-0-vs-2", "flavour": "dup", "tags": ["corpus"], "funcs": gate(0, 2), "main": main("0", "1")},
+        {"id": "corpus-dup-2-vs-0", "flavour": "dup", "tags": ["corpus"], "funcs": gate(0, 2), "main": main("1", "0")},
+        {"id": "corpus-dup-1-vs-3", "flavour": "dup", "tags": ["corpus"], "funcs": gate(1, 3), "main": main("0", "1")},
+        {"id": "corpus-dup-0-vs-4", "flavour": "dup", "tags": ["corpus"], "funcs": gate(0, 4), "main": main("0", "1")},
+        {"id": "corpus-dup-0-vs-1", "flavour": "dup", "tags": ["corpus"], "funcs": gate(0, 1), "main": main("0", "1")},
+        {"id": "corpus-dup-1-vs-2", "flavour": "dup", "tags": ["corpus"], "funcs": gate(1, 2), "main": main("0", "1")},
+        {"id": "corpus-dup-2-vs-2", "flavour": "dup", "tags": ["corpus"], "funcs": gate(2, 2), "main": main("0", "1")},
+        # two runs of one program text, the other body called: the signatures for key generation have to differ
+        {"id": "corpus-dup-run-0", "flavour": "dup", "tags": ["corpus"], "funcs": gate(0, 2, 1), "main": main("0", "0")},
+        {"id": "corpus-dup-run-2", "flavour": "dup", "tags": ["corpus"], "funcs": gate(0, 2, 1), "main": main("1", "1")},
+        {"id": "corpus-dup-run-1", "flavour": "dup", "tags": ["corpus"], "funcs": gate(0, 2, 1), "main": main("2", "2")},
+    ]
 
 
 def corpus():
@@ -300,7 +459,7 @@ def corpus():
         {"id": "corpus-variants", "flavour": "variants", "tags": ["corpus"],
          "funcs": {"v": {"variants": {"0": {"body": [["mul", 0, 0]], "ret": 1}, "1": {"body": [["mul", 0, 0], ["mul", 1, 0]], "ret": 2}}}},
          "main": [["priv", 2], ["call", "v", "0", [0]], ["call", "v", "1", [0]], ["pub", 0]]},
-    ]
+    ] + corpus_dup()
 
 
 def generate(rnd, n):
@@ -308,7 +467,10 @@ def generate(rnd, n):
     out = []
     for i in range(n):
         fl = bag[i % len(bag)] if i < len(bag) else rnd.choice(bag)
-        out.append(Gen(rnd, fl).case(f"g{i}-{fl}"))
+        if fl == "dup":
+            out.extend(Gen(rnd, fl).dup_case(f"g{i}-{fl}"))
+        else:
+            out.append(Gen(rnd, fl).case(f"g{i}-{fl}"))
     return out
 
 
@@ -503,6 +665,15 @@ def strip_ctx(line):
     return " ".join(t.partition("/")[2] if "/" in t else t for t in toks(line))
 
 
+def multiset_cause(c1, c2):
+    """how two normalised equation multisets differ: every line's multiplicities differ by an even number (the lines that make
+    the difference come in pairs, e.g. one check emitted twice by one body and not at all by the other) or not"""
+    lines = set(c1) | set(c2)
+    d = [abs(c1.get(l, 0) - c2.get(l, 0)) for l in lines]
+    if not any(d): return "none"
+    return "even-multiplicity-difference" if all(n % 2 == 0 for n in d) else "odd-multiplicity-difference"
+
+
 def oracle(case, o):
     """the clauses of C12 checked on the files the real run left; returns list of (signature, message)"""
     bad = []
@@ -590,7 +761,12 @@ def oracle(case, o):
     fnames = {}
     for call, fn in calls:
         fnames.setdefault(fn, []).append(call)
+    # all calls of one name: identical normalised multiset of lines (a line emitted twice counts twice: qapsplit keeps, sorts,
+    # writes and digests duplicate lines), else the inconsistency has to be reported
     inconsistent = [fn for fn, cl in fnames.items() if any(expected(c) != expected(cl[0]) for c in cl)]
+    how = {fn: next(multiset_cause(expected(cl[0]), expected(c)) for c in cl if expected(c) != expected(cl[0])) for fn, cl in fnames.items()
+           if fn in inconsistent}
+    o["_fnsets"] = {}
     crashed = st in ("inconsistent-contexts", "empty-block", "empty-max") or st.startswith("other:")
     if st == "empty-max":
         nothing = disk is not None and not any(toks(l)[0] in ("[function]", "[ioblock]") for l in disk)
@@ -603,7 +779,12 @@ def oracle(case, o):
     if inconsistent and not crashed and not st.startswith("inconsistent-functions"):
         # may be legitimately invisible at proving time if the difference sits in the unflushed tail
         fn = inconsistent[0]
-        bad.append(({"clause": "same-function", "mode": "unreported"}, f"calls {fnames[fn][:3]} of `{fn}` have different equation sets and prove() reported nothing"))
+        other = next(c for c in fnames[fn] if expected(c) != expected(fnames[fn][0]))
+        e0, e1 = expected(fnames[fn][0]), expected(other)
+        delta = sorted(((e0 - e1) + (e1 - e0)).items())
+        bad.append(({"clause": "same-function", "mode": "unreported", "cause": how[fn]},
+                    f"calls {fnames[fn][0]} and {other} of `{fn}` have different equation multisets ({how[fn]}: "
+                    f"{'; '.join(f'{n} x `{l}`' for l, n in delta[:3])}) and prove() reported nothing (signature {(o.get('sigs') or {}).get(fn)})"))
     if st.startswith("inconsistent-functions") and not inconsistent:
         bad.append(({"clause": "same-function", "mode": "spurious"}, f"prove() reported {st} although all calls of every function have equal equation sets"))
     if not crashed and not mixed and not empty and not st.startswith("inconsistent-functions"):
@@ -616,7 +797,15 @@ def oracle(case, o):
                 bad.append(({"clause": "split-context", "cause": "context-not-stripped"}, f"pysnark_eqs_{fn} names a context"))
             for call in cl:
                 exp = expected(call)
-                if fn in inconsistent: break
+                if fn in inconsistent:
+                    # nothing was reported: the one file written for the name has to hold every traced equation of every call
+                    missing = exp - Counter(got)
+                    if missing:
+                        bad.append(({"clause": "split-complete", "mode": "call-equations-missing", "cause": how[fn]},
+                                    f"pysnark_eqs_{fn} lacks {sum(missing.values())} line(s) traced by call {call} ({how[fn]} between the "
+                                    f"calls of `{fn}`), e.g. {missing[next(iter(missing))]} x `{next(iter(missing))[:120]}`"))
+                        break
+                    continue
                 missing = exp - Counter(got); extra = Counter(got) - exp
                 if torn is not None and extra.get(torn):
                     extra = extra - Counter([torn])      # the torn line was filed as an equation: part of the unflushed tail
@@ -646,6 +835,11 @@ def oracle(case, o):
             dg.setdefault(fn, set()).add(hs)
         for fn, hs in dg.items():
             if len(hs) > 1: bad.append(({"clause": "same-function", "mode": "digests-differ-unreported"}, f"`{fn}`: digests {sorted(hs)} and no error"))
+        # what a later run of the same name is compared with (cross_run): the multiset of the name and the signature for key generation
+        sigs = o.get("sigs") or {fn: next(iter(hs)) for fn, hs in dg.items() if len(hs) == 1}
+        for fn, cl in fnames.items():
+            if fn not in inconsistent and fn in sigs:
+                o["_fnsets"][fn] = (expected(cl[0]), sigs[fn])
         # schedule
         sched = body_lines(F.get("pysnark_schedule")) or []
         want = []
@@ -696,6 +890,33 @@ def oracle(case, o):
     return bad
 
 
+def cross_run(seen, case, o):
+    """two runs, one function name: the signatures handed to key generation (runqapgenf.ensure_ek re-uses the keys on disk when the
+    signature is the one stored in them) differ whenever the normalised equation multisets differ, and are equal when they are
+    equal. `seen`: name -> (multiset -> (signature, case), signature -> [(multiset, case)]) of the earlier runs.
+    Returns list of (signature, message, [case, case])"""
+    bad = []
+    for fn, (ms, sg) in (o.get("_fnsets") or {}).items():
+        by_ms, by_sig = seen.setdefault(fn, ({}, {}))
+        key = frozenset(ms.items())
+        if key in by_ms:
+            sg0, case0 = by_ms[key]
+            if sg0 != sg:
+                bad.append(({"clause": "signature", "mode": "same-equations-different-signature"},
+                            f"`{fn}` has the same equation multiset in runs {case0['id']} and {case['id']} but signatures {sg0} / {sg}", [case0, case]))
+            continue
+        for ms0, case0 in by_sig.get(sg, [])[:1]:
+            cause = multiset_cause(ms0, ms)
+            delta = sorted(((ms0 - ms) + (ms - ms0)).items())
+            bad.append(({"clause": "signature", "mode": "different-equations-same-signature", "cause": cause},
+                        f"`{fn}`: runs {case0['id']} and {case['id']} trace different equation multisets ({cause}: "
+                        f"{'; '.join(f'{n} x `{l}`' for l, n in delta[:3])}) but key generation gets the same signature {sg}: keys are re-used",
+                        [case0, case]))
+        by_ms[key] = (sg, case)
+        by_sig.setdefault(sg, []).append((ms, case))
+    return bad
+
+
 # ------------------------------------------------------------------ entry points
 def check_cases(ex, cases):
     outs = run_all(cases)
@@ -711,7 +932,7 @@ def check_cases(ex, cases):
         ex.count(f"prove:{st.split(':')[0]}")
         if o["run"] != "ok":
             ex.count("run:raised"); ex.notes.append(f"{case['id']}: program raised {o['run'][:120]}")
-        ex.distinct.add((fl, ncalls, depth, st.split(":")[0], len(o["events"]) // 4, tuple(t for t in case.get("tags", []) if t.startswith(("arg:", "ret:", "value:")))))
+        ex.distinct.add((fl, ncalls, depth, st.split(":")[0], len(o["events"]) // 4, tuple(t for t in case.get("tags", []) if t.startswith(("arg:", "ret:", "value:", "dup:")))))
         diffs, lenient = correspond(o, parse_model(m))
         if lenient: ex.unmodelled += 1; ex.count("buffer-spill")
         if diffs:
@@ -720,6 +941,10 @@ def check_cases(ex, cases):
             ex.traces_validated += 1
         for sig, msg in oracle(case, o):
             ex.violations.append(Violation(sig, f"{sig.get('clause')}: {msg}", {"case": case}))
+        if not hasattr(ex, "c12_seen"): ex.c12_seen = {}
+        for sig, msg, pair in cross_run(ex.c12_seen, case, o):
+            ex.violations.append(Violation(sig, f"{sig.get('clause')}: {msg}", {"cases": pair}))
+        if o.get("_fnsets"): ex.count("cross-run:functions-with-signature", len(o["_fnsets"]))
         if len(ex.samples) < 6 and ncalls:
             ex.samples.append({"case": {k: case[k] for k in ("id", "funcs", "main")}, "model_line": model_line(o, FLAGS)[:500]})
 
@@ -728,11 +953,14 @@ def explore(ctx, extended=False, focus=None):
     ex = Exploration()
     ex.rule = ("programs over the public API (PrivVal/PubVal, +, -, *, scaling, <, ==, val()) with @subqap functions called once, repeatedly, "
                "nested, with list/tuple/int arguments, one-term/multi-term/scaled arguments, LinCombBool/LinCombFxp leaves, functions "
-               "without LinComb leaves, same-named functions with different bodies; witness values small, negative, >= p, wider than 256 "
-               "bits; each case is one fresh interpreter running the real backend and its prove() with stub binaries; for each: every "
+               "without LinComb leaves, same-named functions with different bodies, same-named functions whose bodies differ only in how "
+               "often a check on existing wires (x*(1-x)=0, a*b=c, assert_eq, assert_zero) is emitted (0..6 copies per call: equal, "
+               "differing by an odd number, differing by an even number; directly and through a caller that is itself a sub-circuit; and "
+               "as two separate runs of one program text whose signatures for key generation are compared); witness values small, "
+               "negative, >= p, wider than 256 bits; each case is one fresh interpreter running the real backend and its prove() with stub binaries; for each: every "
                "file line vs the Lean model run on the recorded backend-level trace, and the clause checks of the direct oracle on the "
                "real files; distinct = (flavour, #calls, depth, prove outcome, trace size, argument/result/value classes)")
-    n = ctx.n(110, 2000) * (2 if extended else 1)
+    n = ctx.n(135, 2000) * (2 if extended else 1)
     cases = ([] if extended else corpus()) + generate(ctx.rnd, n)
     for i in range(0, len(cases), 400):
         check_cases(ex, cases[i:i + 400])
@@ -740,6 +968,20 @@ def explore(ctx, extended=False, focus=None):
 
 
 def replay(ctx, payload):
+    if "cases" in payload.get("replay", {}):
+        # a cross-run violation: the runs in order, then the comparison of their signatures
+        seen = {}; rc = 0
+        for case in payload["replay"]["cases"]:
+            o = run_real(case)
+            print("case :", json.dumps({k: case[k] for k in ("id", "funcs", "main")})[:3000])
+            print("prove:", prove_status(o), " signatures for key generation:", o.get("sigs"))
+            for name, text in o["files"].items():
+                if name.startswith("pysnark_eqs"): print(f"== {name}\n{text}")
+            for sig, msg in oracle(case, o):
+                print("ORACLE", json.dumps(sig), msg); rc = 1
+            for sig, msg, _ in cross_run(seen, case, o):
+                print("ORACLE", json.dumps(sig), msg); rc = 1
+        return rc
     case = payload["replay"]["case"] if "replay" in payload and "case" in payload.get("replay", {}) else payload.get("case")
     if case is None and payload.get("correspondence_disagreements"):
         case = payload["correspondence_disagreements"][0]["replay"]
